@@ -22,6 +22,15 @@ def history(ctx):
     s2 = rng.choice([i for i in range(72) if i != s1])
     pool = gen.colliding_names(rng, flav, s1, 5) + gen.colliding_names(rng, flav, s2, 3)
     pool += [p.swapcase() for p in pool[:3]]
+    # pairs in one slot where one name is a proper prefix of the other (comparison over the wrong length confuses them)
+    for _ in range(2):
+        base_ = bytes(rng.choice(b"abcdefghijklmnopqrstuvwxyz") for _ in range(rng.randint(3, 8)))
+        hb = gen.py_hash(flav, base_)
+        ext_ = [base_ + bytes([c1]) + (bytes([c2]) if c2 else b"") for c1 in b"0123456789abcdefghijklmnopqrstuvwxyz_." for c2 in [0] + list(b"abcdefgh1234")]
+        ext_ = [e for e in ext_ if gen.py_hash(flav, e) == hb]
+        if ext_:
+            q_ = rng.choice(ext_)
+            pool += [base_, q_, base_, q_, q_.upper()]
     pool += [b"caf\xe9", b"CAF\xc9", b"\xe0\xfe", b"\xc0\xde", b"\xf7x", b"\xd7X", b"\xffy", b"\xdfY",
              b"a_name_that_is_longer_than_thirty_bytes", b"A_NAME_THAT_IS_LONGER_THAN_THIRTY_chars", b"a_name_that_is_longer_than_thi"]
     present = [{}, {}]
@@ -133,6 +142,30 @@ def run(ctx, n):
         for x in (0, 1):
             p = subprocess.run([ctx.ocaml("adfm"), "chain", "1" if intl else "0"], input="\n".join(lines[x]) + "\n", stdout=subprocess.PIPE, text=True, preexec_fn=common.big_stack)
             mouts.append(p.stdout.splitlines())
+        # C02: every entry the model holds at the end is reachable under its name in the implementation (at its block)
+        L3 = L[:-4]
+        probes3 = []
+        for x in (0, 1):
+            if mouts[x]:
+                st = mouts[x][-1][2:].strip()
+                for part in [q for q in st.split(";") if q]:
+                    for ent in part.split("=", 1)[1].split(","):
+                        blk, nmh = ent.split(":")
+                        if nmh != "-":
+                            L3.append("lookup %s %s" % (DIRS[x], nmh))
+                            probes3.append((len(L3), x, nmh, blk))
+        L3 += ["umount", "umountdev"]
+        if probes3:
+            rc3, out3, err3, wd3 = common.run_script(ctx, "\n".join(L3) + "\n")
+            res3 = common.parse_results(out3)
+            for (ln, x, nmh, blk) in probes3:
+                r3 = (res3.get(ln) or ["?"])[-1]
+                ctx.bump("model_entry_lookups")
+                if not r3.startswith("ok") or common.kv(r3)[1].get("sect") != blk:
+                    ctx.fail("oracle", "an entry that was created and never deleted or renamed is not reachable under its name",
+                             {"directory": "root" if x == 0 else "sub", "name": nmh, "block": blk, "meta": meta, "script": L3[: ln]},
+                             expected="ok sect=%s" % blk, actual=r3)
+                    break
         for i, (op, mk) in enumerate(zip(ops, marks)):
             ok = last(op["opl"]).startswith("ok")
             ctx.count(("chain", meta["flavour"], op["kind"], hexs(op["name"]), i, hash(tuple(L))))
